@@ -30,7 +30,7 @@ theorem mergeNC_refines (cur : Node) (p : Cst) (hc : WF cur = true) (hp : p.valu
   have ⟨h1, h2⟩ := mergeNC_den p cur hc hp
   refine ⟨?_, h1⟩
   rw [← h2]
-  exact eqv_refl _ (noDup_den _ h1)
+  exact eqv_refl_E _ (noDup_den _ h1)
 
 /-- `mergeDocs` on a parsed object -/
 theorem mergeDocsC_refines (keys : List Bytes) (ob : NMembers) (pms : List (Bytes × Cst))
